@@ -356,7 +356,26 @@ def core_corpus():
         dict(kind="billing", tz="UTC", frame=False, which="baseline",
              ts=[t0, t0 + 30 * DAY, t0 + 140 * DAY, t0 + 170 * DAY], vals=[1.0, 2.0, 3.0, 4.0],
              args=A(end=t0 + 135 * DAY, max_days=30, ignore_gap=True, n_days=45)),
-    ]
+    ] + dst_edge_corpus()
+
+
+def dst_edge_corpus():
+    """limits whose UTC offset differs from the offset `max_days` away (the clocks changed in between), on a series with hourly rows
+    around the far edge of the window: the window is `max_days` x 24 ELAPSED hours whatever type the limit has (pandas Timestamp or
+    python datetime, in the data's zone or not)"""
+    out = []
+    A = lambda **k: dict(dict(start=None, end=None, max_days=365, overshoot=False, n_days=None, ignore_gap=False), **k)  # noqa
+    for tz, local in (("America/Chicago", "2021-03-10"), ("America/Chicago", "2021-11-04"), ("Australia/Sydney", "2021-10-05")):
+        lim = int(pd.Timestamp(local, tz=tz).timestamp())
+        for which in ("baseline", "reporting"):
+            far = lim - 365 * DAY if which == "baseline" else lim + 365 * DAY
+            ts = sorted(set([far + 3600 * h for h in range(-3, 4)] + [lim + 3600 * h for h in range(-2, 3)] +
+                            [min(lim, far) + DAY * d for d in range(5, 360, 20)]))
+            vals = [float(i + 1) for i in range(len(ts))]
+            for limit_py in (True, False):
+                out.append(dict(kind="hourly", ts=ts, vals=vals, tz=tz, frame=False, which=which, limit_tz=tz, limit_py=limit_py,
+                                args=A(end=lim) if which == "baseline" else A(start=lim)))
+    return out
 
 
 def replay_finding(entry):
